@@ -16,7 +16,8 @@ ASSUME = ["fault models are harness LambdaChannels built from the schemes' publi
 HORIZON = {"quick": 400, "thorough": 3600}
 
 PAIRS = ["hamming74+syndrome", "hamming74+bruteforce", "hamming-r+syndrome", "bch15_7+bm", "bch15_5+bm", "rm13+reed", "rep5+bruteforce", "cyclic7+syndrome",
-         "tree+bp", "tree+minsum", "spc4+wagner", "polar8_4+sc", "polar8_4+polarbp", "rm13+softrm", "polar16_8+sc"]
+         "tree+bp", "tree+minsum", "spc4+wagner", "polar8_4+sc", "polar8_4+polarbp", "rm13+softrm", "polar16_8+sc",
+         "polar8_4+polarbp1", "polar8_4+polarbp1ms", "polar16_8+polarbp2"]      # smallest iteration budgets (one sweep already converges on these links)
 
 
 def bounds(tier):
@@ -58,8 +59,10 @@ def build_pair(pr):
            "spc4": lambda: E.SingleParityCheckCodeEncoder(4), "polar8_4": lambda: E.PolarCodeEncoder(4, 8, frozen_zeros=True), "polar16_8": lambda: E.PolarCodeEncoder(8, 16)}[code]()
     d = {"syndrome": lambda: D.SyndromeLookupDecoder(enc), "bruteforce": lambda: D.BruteForceMLDecoder(enc), "bm": lambda: D.BerlekampMasseyDecoder(enc), "reed": lambda: D.ReedMullerDecoder(enc),
          "bp": lambda: D.BeliefPropagationDecoder(enc, bp_iters=12), "minsum": lambda: D.MinSumLDPCDecoder(enc, bp_iters=12), "wagner": lambda: D.WagnerSoftDecisionDecoder(enc),
-         "sc": lambda: D.SuccessiveCancellationDecoder(enc), "polarbp": lambda: D.BeliefPropagationPolarDecoder(enc, bp_iters=10), "softrm": lambda: D.ReedMullerDecoder(enc, input_type="soft")}[dec]()
-    soft = dec in ("bp", "minsum", "wagner", "sc", "polarbp", "softrm")
+         "sc": lambda: D.SuccessiveCancellationDecoder(enc), "polarbp": lambda: D.BeliefPropagationPolarDecoder(enc, bp_iters=10),
+         "polarbp1": lambda: D.BeliefPropagationPolarDecoder(enc, bp_iters=1), "polarbp1ms": lambda: D.BeliefPropagationPolarDecoder(enc, bp_iters=1, regime="min_sum"),
+         "polarbp2": lambda: D.BeliefPropagationPolarDecoder(enc, bp_iters=2), "softrm": lambda: D.ReedMullerDecoder(enc, input_type="soft")}[dec]()
+    soft = dec in ("bp", "minsum", "wagner", "sc", "polarbp", "polarbp1", "polarbp1ms", "polarbp2", "softrm")
     t = None
     if not soft:
         dmin = {"hamming74": 3, "hamming-r": 3, "bch15_7": 5, "bch15_5": 7, "rm13": 4, "rep5": 5, "cyclic7": 3}[code]
